@@ -32,6 +32,7 @@ EXPLANATION = (
     "contract_nodes_pair. "
     "Round 7 (the corner cases the property names; defects F24-F29): (CPSTATE) a copied processor takes every attribute, the id counter included, from the same attribute of its source; (EMPTYPATH) functions handed the caller's `optimize` read `optimize[k]` only when the path has an element; (ZEROSTEP) logarithms of an operation count that is 0 for a no-step contraction are floored - the hyper-optimizer's exact objectives are not (known finding F29); (CHILDLESS initial) the root starts in the set of nodes still to divide only when it is not a leaf; (PROGRESS) every partition-driven loop escapes when the partition did nothing; (NONEMPTY) a tally that is picked from has an entry on every CFG path, extremes over per-edge collections have a default. "
     'Round 8: (LOGDOMAIN) sign-domain analysis of the logarithms in the greedy score; (FRESHOPT, shared with C16-MEMOFACTORY) no preset is served by a memoised result-carrying optimizer. '
+    'Round 9 (engine E9): (PROCEVAL) optimize_greedy and optimize_optimal, with the ContractionProcessor class they drive, are evaluated end to end on every network of one to three tensors (and a sample of four-tensor ones) over a small alphabet of terms; the returned paths are replayed and must consume every input exactly once. '
 )
 ASSUMPTIONS = ("partition functions return one label per node; kahypar corner-case guards are not decided",)
 
@@ -1362,6 +1363,93 @@ def rule_logdomain(ctx):
     return r
 
 
+def rule_proceval(ctx):
+    """(engine E9) The processor-based finders end to end.  `optimize_greedy` and `optimize_optimal` — with the
+    `ContractionProcessor` class they drive (construction, the simplifications, the greedy loop, the dynamic programme,
+    the joining of leftovers) and the converter to recycled ids — are evaluated by the engine's mini-evaluator on
+    **every** network of one to three tensors (and a sample of four-tensor ones) whose terms are drawn from
+    '', a, b, aa, ab, ba, bb, c, with two outputs each: scalars, repeated indices, hyper indices, disconnected parts and
+    the 1- and 2-tensor cases all occur.  The returned path is replayed: every step names distinct positions that
+    exist at that moment, and exactly one tensor is left — in the recycled-id and in the single-assignment form."""
+    import itertools
+
+    from ..engine.minieval import Mini, NoEval, Raised
+
+    r = RuleResult("C05-PROCEVAL", "greedy and optimal return complete, well-formed paths on every small network", 2)
+    m = ctx.p.modules[C.BASIC]
+    fs = {g.name: g.node for g in m.all_funcs if g.cls is None}
+    cpc = _cp(ctx)
+    classes = {CP: {n_: f_.node for n_, f_ in cpc.methods.items()}}
+    costfns = {"flops": "compute_con_cost_flops", "size": "compute_con_cost_size"}
+    terms = ["", "a", "b", "aa", "ab", "ba", "bb", "c"]
+    nets = []
+    for N in (1, 2, 3):
+        nets += list(itertools.product(terms, repeat=N))
+    four = list(itertools.product(terms, repeat=4))
+    nets += four[::37]
+    sd = {"a": 2, "b": 3, "c": 2}
+    for fname in ("optimize_greedy", "optimize_optimal"):
+        f = ctx.p.func(C.BASIC, fname)
+        C.require(f is not None, f"{fname} not found")
+        k = ctx.key(f, "C05-PROCEVAL")
+        bad = None
+        n = 0
+        try:
+            for net in nets:
+                flat = "".join(net)
+                once = "".join(c for c in "abc" if flat.count(c) == 1)
+                for out in {"", once}:
+                    for use_ssa in ((False, True) if fname == "optimize_greedy" else (False,)):
+                        for extra in ([{}] if fname == "optimize_greedy" else [{"minimize": "flops"}, {"minimize": "size", "search_outer": True}]):
+                            n += 1
+                            ext = {"parse_minimize_for_optimal": lambda mn: ("minifn", costfns[mn], {})}
+                            kw = dict(extra, use_ssa=use_ssa)
+                            try:
+                                path = Mini(fs, budget=400000, classes=classes, externals=ext).call(
+                                    f.node, [tuple(tuple(t) for t in net), tuple(out), sd], kw)
+                            except Raised as e:
+                                bad = bad or (net, out, kw, f"raises ({e.text})")
+                                continue
+                            except NoEval:
+                                raise
+                            except Exception as e:
+                                bad = bad or (net, out, kw, f"raises ({type(e).__name__}: {e})")
+                                continue
+                            why = None
+                            if use_ssa:
+                                live = set(range(len(net)))
+                                nxt = len(net)
+                                for stp in path:
+                                    stp = list(stp)
+                                    if len(set(stp)) != len(stp) or not set(stp) <= live or not stp:
+                                        why = f"step {tuple(stp)} of {[tuple(x) for x in path]} does not name distinct live tensors"
+                                        break
+                                    live -= set(stp)
+                                    live.add(nxt)
+                                    nxt += 1
+                                left = len(live)
+                            else:
+                                cnt = len(net)
+                                for stp in path:
+                                    stp = list(stp)
+                                    if len(set(stp)) != len(stp) or any(not (0 <= c < cnt) for c in stp) or not stp:
+                                        why = f"step {tuple(stp)} of {[tuple(x) for x in path]} does not name distinct existing positions (of {cnt})"
+                                        break
+                                    cnt -= len(stp) - 1
+                                left = cnt
+                            if why is None and left != 1:
+                                why = f"the path {[tuple(x) for x in path]} leaves {left} tensors"
+                            if why and bad is None:
+                                bad = (net, out, kw, why)
+        except NoEval as e:
+            raise AnalysisError(f"{fname}: not evaluable by the mini-evaluator ({e})")
+        if bad:
+            r.violation(k, f.loc, f"{fname}(`{','.join(bad[0])}->{bad[1]}`, {bad[2]}): {bad[3]}")
+        else:
+            r.ok(k, f.loc, f"{n} (network, output, options) cases: every input consumed once, one tensor left")
+    return r
+
+
 def _shared_rules():
     """Completion of partial caller-supplied paths needs the converters to know the number of inputs (F22)."""
     out = []
@@ -1377,4 +1465,4 @@ def _shared_rules():
     return out
 
 
-RULES = [rule_logdomain, rule_freshopt, rule_progress, rule_nonempty, rule_zerostep, rule_emptypath, rule_cpstate, rule_consume, rule_remain, rule_complete, rule_linearids, rule_steps, rule_childless, rule_labels, rule_edgepath] + _shared_rules()
+RULES = [rule_proceval, rule_logdomain, rule_freshopt, rule_progress, rule_nonempty, rule_zerostep, rule_emptypath, rule_cpstate, rule_consume, rule_remain, rule_complete, rule_linearids, rule_steps, rule_childless, rule_labels, rule_edgepath] + _shared_rules()
